@@ -188,8 +188,11 @@ def correspond(ctx, model):
         ctx.case({"name": name}, ("oracle",) + tuple(map(str, key)))
         ctx.count("oracle-only:" + name.split(" ")[0].split("{")[0].split("(")[0].split("[")[0])
         if fail:
+            kid = fail.get("known_id")
             ctx.disagree("opalg.oracle:" + str(fail.get("what")), {"name": name, "key": [str(k) for k in key]}, _js(fail), "same construction on the operands' matrices",
-                         oracle=lambda c, fail=fail: _js(fail))
+                         oracle=lambda c, fail=fail: _js(fail), known_id=kid)
+            if kid is not None and ctx.is_known(kid):
+                continue
             bad += 1
             if bad >= 8:
                 break
@@ -212,7 +215,9 @@ def correspond(ctx, model):
 
 
 def findings(ctx, model):
-    pass
+    import opalg_stacks as S
+
+    ctx.known_finding(S.KNOWN_NEG_INDEX, S.neg_index_still_fails(G.Env()))
 
 
 def search(ctx, model, why):
